@@ -114,6 +114,7 @@ def lay(cls, rnd, eol, indent="    "):
         "space": " ",
         "nl": eol + indent,
         "nl0": eol,                      # continuation lines starting in column 1
+        "nlhug": eol + indent,           # as "nl", but the closing bracket follows the last argument on its line (not in FEATURES: asked for by name)
         # (no `/** .. */` here: between macro arguments that would be a doc comment, which is not valid Rust; `/***/`, `/**/` and
         #  `/*** .. ***/` are ordinary comments)
         "blockc": rnd.choice([" /* c, c; c */ ", " /***/ ", " /* * / ** c; */ ", " /**/ ", " /*** c, ***/ ", " /* c */ /*** d **/ ", " /* c **/ "]),
